@@ -76,7 +76,7 @@ impl Scenario for C15 {
     fn meta(&self) -> Meta {
         Meta {
             level: "exploration",
-            rule: "run = two real full nodes (routing, verification, consensus processors; SimNet; fetch server reading the peer's simulated disk). Peer holds prefix+Y, syncer prefix+X with |Y| > |X| (prefix 0..35/120 so that 0, one or several fork-id checkpoints are populated; X empty, or 1..8/30 blocks). The syncer dials its static peer; real handshake; BlockchainRequest; header-hash stream; fetch batch size in {1,2,3,10}. Seeded scheduling of every pending message / channel item / fetch completion; faults: duplicated messages (5%), failed fetches (15%, retried by the timer path), one forced disconnect + reconnect; fetch completions either FIFO or in any order; in a third of the runs the syncer is configured with initial_loading_completed = true (park-and-retry of blocks whose parent is unknown instead of the orphan branch), where every completion order must converge. An eighth of the runs is the long-chain family: the peer's producer chain (genesis period 3..5) is 1..16 blocks longer than its block ring, it has purged its oldest blocks, and an empty syncer must join at the oldest block still served and reach the tip. Oracle: the set of header hashes the peer streams covers every block of Y after the true fork point; after faults stop, within 80 rounds of (run to quiescence, advance 2.1 s, tick routing timers) the syncer's tip equals the peer's tip; no processor panics. distinct_nontrivial = distinct (prefix, |X|, |Y|, fault set, schedule digest) that reached quiescence.",
+            rule: "run = two real full nodes (routing, verification, consensus processors; SimNet; fetch server reading the peer's simulated disk). Peer holds prefix+Y, syncer prefix+X with |Y| > |X| (prefix 0..35/120 so that 0, one or several fork-id checkpoints are populated; X empty, or 1..8/30 blocks). The syncer dials its static peer; real handshake; BlockchainRequest; header-hash stream; fetch batch size in {1,2,3,10}. Seeded scheduling of every pending message / channel item / fetch completion; faults: duplicated messages (5%), failed fetches (15%, retried by the timer path), one forced disconnect + reconnect; fetch completions either FIFO or in any order; in a third of the runs the syncer is configured with initial_loading_completed = true (park-and-retry of blocks whose parent is unknown instead of the orphan branch), where every completion order must converge. An eighth of the runs is the long-chain family: the peer's producer chain (genesis period 3..5) is 1..16 blocks longer than its block ring, it has purged its oldest blocks, and an empty syncer must join at the oldest block still served and reach the tip; with initial_loading_completed = true the syncer instead holds the chain up to genesis period + 2 blocks below the peer's tip and its fetches complete in any order (blocks more than a genesis period ahead of its tip take the whole-chain request path). Oracle: the set of header hashes the peer streams covers every block of Y after the true fork point; after faults stop, within 80 rounds of (run to quiescence, advance 2.1 s, tick routing timers) the syncer's tip equals the peer's tip; no processor panics. distinct_nontrivial = distinct (prefix, |X|, |Y|, fault set, schedule digest) that reached quiescence.",
             real: &["RoutingThread", "VerificationThread", "ConsensusThread", "Network/Peer handshake", "BlockchainSyncState", "Blockchain::generate_fork_id/generate_last_shared_ancestor/add_block", "Message codecs", "Storage"],
             stubs: &["SimNet (ordered per-connection queues)", "fetch server over the peer's SimDisk", "SimClock", "event-granularity scheduler instead of tokio (handlers run to completion)", "MiningThread idle"],
             assumptions: &["16-bit fork-id prefix collisions (2^-16 per checkpoint) are ignored", "out-of-order fetch completion that delivers a child before its parent is the orphan class (known finding of C03/C05) and is reported under its own signature"],
@@ -407,6 +407,13 @@ fn long_chain_family(plan: &Plan) -> RunResult {
     let peer_cfg = c.cfg.clone();
     let mut sync_cfg = c.cfg.clone();
     sync_cfg.peers = vec![static_peer("node0")];
+    // with initial_loading_completed = true the syncer is not empty: it holds the chain up to genesis period + 2
+    // blocks below the peer's tip (still inside what the peer serves), parks blocks whose parent it lacks and
+    // asks again; fetches then complete in any order, so blocks arrive that are further ahead of its tip than
+    // one genesis period ("too distant": the whole-chain request path)
+    let behind = (gp + 2).min(n_blocks - 1);
+    let held = if plan.loading_completed { (n_blocks - behind) as usize } else { 0 };
+    sync_cfg.blockchain.initial_loading_completed = plan.loading_completed;
     let p = sim.add_node(&c.keys[0].clone(), &peer_cfg, &opts);
     let s = sim.add_node(&c.keys[2].clone(), &sync_cfg, &opts);
     let pchain: Vec<Vec<u8>> = c.recs.iter().map(|b| b.bytes.clone()).collect();
@@ -414,6 +421,15 @@ fn long_chain_family(plan: &Plan) -> RunResult {
         r.discarded = true;
         r.probe("preload_failed");
         return r;
+    }
+    if held > 0 {
+        // (a node that old has purged as the peer has: give it the blocks the way it would have received them)
+        if !sim.preload(s, &pchain[..held]) {
+            r.discarded = true;
+            r.probe("syncer_preload_failed");
+            return r;
+        }
+        r.fault("syncer_more_than_a_genesis_period_behind_any_order_fetch", 1);
     }
     sim.init_node(p, false);
     sim.init_node(s, false);
@@ -435,7 +451,7 @@ fn long_chain_family(plan: &Plan) -> RunResult {
         let mut k = 0;
         loop {
             // fetches complete in request order (a child before its parent is the orphan class)
-            let acts: Vec<Action> = sim.enabled().into_iter().filter(|a| !matches!(a, Action::FetchDone(i) | Action::FetchFail(i) if *i > 0)).collect();
+            let acts: Vec<Action> = sim.enabled().into_iter().filter(|a| held > 0 || !matches!(a, Action::FetchDone(i) | Action::FetchFail(i) if *i > 0)).filter(|a| !matches!(a, Action::FetchFail(_)) || held == 0).collect();
             if acts.is_empty() {
                 break;
             }
